@@ -228,7 +228,11 @@ func (m *nodeMonitor) check() {
 			if m.contents[k] == nil {
 				m.contents[k] = map[string]bool{}
 			}
-			if !m.contents[k][e.x] {
+			if m.diedUnrecorded(m.pos, e) {
+				// The process stopped between producing this signature and the attempt to record it: the signature
+				// died with the process, unrecorded and unreleased (no order of sign and record can avoid that window).
+				o.res.Count("signatures_lost_with_the_process_before_recording", 1)
+			} else if !m.contents[k][e.x] {
 				m.contents[k][e.x] = true
 				m.signLife[k] = append(m.signLife[k], m.life)
 			}
@@ -611,6 +615,22 @@ func atoi(s string) int {
 // doubleSigns (C02): the key signed more than one distinct content for one kind/height/round. The signature names
 // whether the contents were signed in different process lifetimes and whether a content other than the recorded one
 // reached the mirror (the round-store wrapper saw it persisted).
+// diedUnrecorded: after the sign event at pos, the same process lifetime made no attempt to record that signature
+// (no action-store call for that kind/height/round) before it ended in a stop that the trace shows as a new start.
+func (m *nodeMonitor) diedUnrecorded(pos int, e tev) bool {
+	tr := m.n.trace
+	for i := pos + 1; i < len(tr); i++ {
+		t := tr[i]
+		if t.kind == "astore" && t.a == e.a && t.h == e.h && t.r == e.r {
+			return false
+		}
+		if t.kind == "start" {
+			return true
+		}
+	}
+	return false // still the same lifetime: the record attempt may yet come
+}
+
 func (m *nodeMonitor) doubleSigns() {
 	n, o := m.n, m.o
 	keys := make([]string, 0, len(m.contents))
